@@ -119,6 +119,8 @@ class C10(Prop):
                 slot = r.randrange(8) if r.random() < 0.7 else r.randrange(256)
                 se = rand_epoch()
                 ee = min(se + r.randrange(0, 86400), 2 ** 32 - 1) if r.random() < 0.7 else rand_epoch()
+                if r.random() < 0.08:
+                    ee = min(se + r.choice([0, 0, 30, 59 - se % 60, 86400, 172800]), 2 ** 32 - 1)     # ends in the minute it starts in (or days later at that minute)
                 recs.append((slot, r.choice(EVEN_MASKS), se, ee))
             return recs
 
